@@ -10,6 +10,7 @@ func init() {
 	vRegister("HC02_PoolRecycleWrap", HC02_PoolRecycleWrap)
 	vRegister("HC02_IntPool", HC02_IntPool)
 	vRegister("HC02_World", HC02_World)
+	vRegister("HC02_WorldRel", HC02_WorldRel)
 }
 
 const hPoolN = 6 // slots incl. the reserved slot 0
@@ -174,16 +175,24 @@ func HC02_IntPool() {
 
 // HC02_World: handles at world level: single and batch creation mixing
 // recycled and fresh ids, removal single / by filter / by Reset.
+// handleSet: component sets used by the handle harnesses (with relation tables when the universe has them).
+func (x *hW) handleSet(name string) uint8 {
+	if x.nu <= uR1 {
+		return x.pickLegalSet(name, 0)
+	}
+	return [4]uint8{0, 1 << uA, 1 << uR1, 1<<uA | 1<<uR1}[vChoice(name, 4)]
+}
+
 func (x *hW) handleStep(op int) {
 	switch op {
 	case 0:
-		x.opNewEntity(x.pickLegalSet("set", 0))
+		x.opNewEntity(x.handleSet("set"))
 	case 1:
 		cnt := int(vU8("count"))
 		vAssume(cnt >= 1 && cnt <= 4)
 		vAssume(x.n+cnt <= hMaxH)
 		q := vChoice("q", 2) == 1
-		x.opNewBatch(x.pickLegalSet("set", 0), cnt, -1, false, Entity{}, q, q)
+		x.opNewBatch(x.handleSet("set"), cnt, -1, false, Entity{}, q, q)
 	case 2:
 		x.opRemoveEntity(x.pickAliveIdx("ent"))
 	case 3:
@@ -200,6 +209,32 @@ func (x *hW) handleStep(op int) {
 			x.set[j], x.tgt[j] = 0, Entity{}
 		}
 	}
+}
+
+// HC02_WorldRel: the same handle properties on a world with relation tables
+// (zero target, alive target, dead target) - Reset and filter removals must
+// empty every kind of table.
+func HC02_WorldRel() {
+	_, capInc, relInc := hConfig()
+	x := hNew(0, 6, capInc, relInc)
+	x.opNewEntity(0)                                      // 0: parent
+	x.opNewEntity(1 << uR1)                               // 1: relation without target
+	x.opBuilderNew(1<<uR1, uR1, true, x.h[0], false)      // 2: child of 0
+	x.opBuilderNew(1<<uA|1<<uR1, uR1, true, x.h[0], true) // 3: child of 0 in another node
+	x.opNewEntity(1<<uA | 1<<uR1)                         // 4: relation without target, second node
+	if vChoice("deadparent", 2) == 1 {
+		x.opRemoveEntity(0)
+	}
+	steps := 2 + vTier()
+	for s := 0; s < steps; s++ {
+		x.handleStep([5]int{0, 1, 2, 3, 4}[vChoice("op", 5)])
+		x.inv()
+	}
+	x.check()
+	x.checkQueries(true)
+	st := x.w.Stats()
+	vAssert(st.Entities.Used == x.aliveCount(), "Stats().Entities.Used = creations - removals")
+	vReach("end")
 }
 
 func HC02_World() {
